@@ -95,7 +95,10 @@ func centroid(context *api.Context, geometry b6.Geometry) (b6.Geometry, error) {
 
 // Return the point at the given fraction along the given path.
 func interpolate(context *api.Context, path b6.Geometry, fraction float64) (b6.Geometry, error) {
-	polyline := path.Polyline()
+	polyline, err := polylineOf("interpolate", path)
+	if err != nil {
+		return nil, err
+	}
 	point, _ := polyline.Interpolate(fraction)
 	return b6.GeometryFromLatLng(s2.LatLngFromPoint(point)), nil
 }
